@@ -92,6 +92,7 @@ fn local_cases<B: Backend, P: Prims>(opts: &Opts, rep: &mut Report, idx: &mut u6
             continue;
         }
         let mut rng = Rng::derive(opts.seed, &stream, *idx);
+        crate::noise::sprinkle::<B>();
         let key: [u8; 32] = match rng.below(20) {
             0 => [0; 32],
             1 => [0xff; 32],
@@ -154,6 +155,7 @@ fn local_cases<B: Backend, P: Prims>(opts: &Opts, rep: &mut Report, idx: &mut u6
             for step in 0..opts.size(1500, 15000) {
                 *idx += 1;
                 let mut rng = Rng::derive(opts.seed, &stream, *idx);
+                crate::noise::sprinkle::<B>();
                 let ki = if step % 7 == 3 { 1 } else { 0 };
                 let n0 = &nonces[[0usize, 0, 1, 0, 2, 1, 0][step % 7]];
                 let len = step % 700;
@@ -185,6 +187,7 @@ fn local_cases<B: Backend, P: Prims>(opts: &Opts, rep: &mut Report, idx: &mut u6
                 continue;
             }
             let mut rng = Rng::derive(opts.seed, &stream, *idx);
+            crate::noise::sprinkle::<B>();
             let key: [u8; 32] = rng.arr();
             let mut nonce = rng.bytes(B::LOCAL_NONCE);
             let mut wrapping = false;
@@ -227,6 +230,7 @@ fn public_cases<B: Backend, P: Prims>(opts: &Opts, rep: &mut Report, idx: &mut u
             continue;
         }
         let mut rng = Rng::derive(opts.seed, &stream, *idx);
+        crate::noise::sprinkle::<B>();
         let sk_raw = rng.pick(&keys).clone();
         let kp = KeyPair::<B>::from_raw(Purp::Public, &sk_raw).expect("generated key");
         let pk_raw = kp.raw().1;
@@ -307,6 +311,7 @@ fn suffix_cases<B: Backend, P: Prims>(opts: &Opts, rep: &mut Report, idx: &mut u
             continue;
         }
         let mut rng = Rng::derive(opts.seed, &stream, *idx);
+        crate::noise::sprinkle::<B>();
         let len = gen_len(&mut rng, false);
         let msg = gen_bytes(&mut rng, len);
         let footer = gen_footer(&mut rng);
@@ -367,6 +372,7 @@ fn typed_footer_cases<B: Backend, P: Prims>(opts: &Opts, rep: &mut Report, idx: 
                 continue;
             }
             let mut rng = Rng::derive(opts.seed, &stream, *idx);
+            crate::noise::sprinkle::<B>();
             let len = gen_len(&mut rng, false);
             let msg = gen_bytes(&mut rng, len);
             let aad = gen_aad::<B>(&mut rng);
@@ -484,6 +490,7 @@ fn siblings<A: Backend, B: Backend>(opts: &Opts, rep: &mut Report) {
             continue;
         }
         let mut rng = Rng::derive(opts.seed, &stream, idx);
+        crate::noise::sprinkle::<B>();
         let len = gen_len(&mut rng, true);
         let msg = gen_bytes(&mut rng, len);
         let footer = gen_footer(&mut rng);
